@@ -29,12 +29,12 @@ ASSUMPTIONS = [
     "symmetry, identical rebuilds and commuting swaps",
 ]
 REQUIRED_LABELS = {"all": ["edit:rebuild", "edit:drop_last", "edit:flip_dagger", "edit:param_1e-3", "edit:move_mode", "edit:swap_targets",
-                           "edit:swap_commuting", "maps_differ", "maps_equal", "reported_equal", "reported_different"]}
+                           "edit:swap_commuting", "edit:param_0.0003", "edit:param_1e-5", "maps_differ", "maps_equal", "reported_equal", "reported_different"]}
 
 ALPH = ["Dgate", "Sgate", "Rgate", "BSgate", "S2gate", "MZgate", "CXgate", "CZgate", "Xgate", "Pgate", "Fouriergate", "LossChannel",
         "Coherent", "Squeezed", "Vacuum", "Thermal", "sMZgate"]
 EDITS = ["rebuild", "append", "drop_last", "flip_dagger", "param_1e-9", "param_1e-3", "param_1", "move_mode", "swap_targets",
-         "swap_commuting", "bigger_register", "unrelated"]
+         "swap_commuting", "bigger_register", "unrelated", "param_0.0003", "param_1e-5"]
 
 
 def selftest():
@@ -172,6 +172,10 @@ def check_pair(ctx, case):
             return ctx.fail("%s.not_symmetric" % name, "A %s B = %s but B %s A = %s (edit %s)" % (name, out[(name, "ab")], name, out[(name, "ba")], case["edit"]))
         if out[(name, "ab")] and not same:
             return ctx.fail("%s.unsound.%s" % (name, case["edit"]), "programs reported %s although their maps differ by %.3g (edit %s)" % ("equal" if name == "eq" else "equivalent", d, case["edit"]))
+    # == compares parameters exactly (no tolerance is documented for it, unlike equivalence(atol=...)): programs it calls equal apply the same
+    # numbers and their maps agree to rounding
+    if out[("eq", "ab")] and d > 1e-9:
+        return ctx.fail("eq.unsound_beyond_rounding.%s" % case["edit"], "A == B is True although the maps differ by %.3g (edit %s): == has no tolerance" % (d, case["edit"]))
     if case["edit"] == "rebuild" and not (out[("eq", "ab")] and out[("equivalence", "ab")]):
         return ctx.fail("identical_rebuild_reported_different", "eq=%s equivalence=%s for an identical rebuild" % (out[("eq", "ab")], out[("equivalence", "ab")]))
     if case["edit"] == "swap_commuting" and not out[("equivalence", "ab")]:
